@@ -32,4 +32,43 @@ PROPS = {
                 "non-trivial = some message received >= 3 reports, or a reload happened while a message was partially reported; distinct = distinct history",
         "assumptions": ["callers always pass the same TargetChannels for a message and report shards from that set (what replicate_channel_manager does)"],
     },
+    "C07": {
+        "pkg": "hwriter", "test": "TestC07", "level": "exploration",
+        "quick": T(16, 400), "thorough": T(16, 12000, timeout=3000),
+        "rule": "rapid-generated packs (1..5 messages + closing tick) of insert (0..12 rows, 1..3 columns of int64/varchar/float/bool/float-vector/binary-vector/json), delete (int or string PKs), "
+                "drop-collection, drop-partition, import, tick with self-consistent timestamps; 1..4 concurrent HandleReplicateMessage calls on different channels; replicate id on/off; 5 name-mapping shapes; "
+                "downstream answering ok / error / undecodable position. Oracle: every serialized message decoded the way the Milvus proxy does (MsgHeader -> type -> ProtoUDFactory dispatcher) is proto.Equal "
+                "to the handed message (same index, same type), replicate marking and tick conversion, call-level fields, returned checkpoint, error propagation. "
+                "non-trivial = pack set with >= 2 non-tick message types and >= 1 row; distinct = distinct message contents",
+        "assumptions": ["names inside messages are normalised on both sides here; they are decided by C09 (TestC09_DML)"],
+    },
+    "C08": {
+        "pkg": "hwriter", "test": "TestC08", "replay_test": "TestC08_Replay", "level": "exploration",
+        "quick": T(16, 1500, fixed=["TestC08_Table"]), "thorough": T(16, 40000, fixed=["TestC08_Table"], timeout=3000),
+        "rule": "part 1 (exhaustive): decision function over all triples of 11 magnitudes x 4 presence combinations against a table derived from the statement. "
+                "part 2 (rapid): source timelines over 2 databases x 2 collections x 1 partition (create/op/drop/re-create, 6 collection op kinds, 2 partition op kinds, db create/drop); "
+                "API-event stream and op stream keep their own order and are merged arbitrarily; the run ends at the first not-ready error (the task would pause); then restart with the drop-horizon table "
+                "and replay of a suffix of the op stream. Oracle: op of an incarnation known dropped -> nil and no mutating call; op never applied to a newer incarnation; op of the current incarnation -> exactly one call. "
+                "non-trivial (timeline part) = at least one must-skip obligation and a re-created name or a replay; distinct = distinct delivery history",
+        "assumptions": ["the fake downstream answers not-found for missing objects and ignores a create for an existing name, like MilvusDataHandler",
+                        "replay after a database drop is not generated (C15 only lists databases still present downstream)"],
+    },
+    "C09": {
+        "pkg": "hwriter", "test": "TestC09(_DML)?", "ntests": 2, "level": "exploration",
+        "quick": T(16, 700), "thorough": T(16, 20000, timeout=3000),
+        "rule": "rapid over the product {18 op-message kinds, 4 API events (TestC09), 5 DML message kinds (TestC09_DML), readiness probes} x source db {'', default, db1} x mapping shape "
+                "{none, exact, whole-db, unrelated, exact+whole-db for the same db} x downstream ok/failing; expected names from a 6-line reference mapping; routing db (ReplicateParam.Database), "
+                "request name fields and names inside serialized DML are compared. non-trivial = the mapping changes the database and the operation is collection-scoped; distinct = distinct (kind, names, mapping, contents)",
+        "assumptions": ["database-level operations on a database that only occurs in collection-level entries may or may not follow them (statement is silent): both accepted",
+                        "RBAC requests are global objects: no database/collection expectation"],
+    },
+    "C20": {
+        "pkg": "hwriter", "test": "TestC20(_Malformed)?", "ntests": 2, "replay_test": "TestC20_Replay", "level": "exploration",
+        "quick": T(16, 700), "thorough": T(16, 20000, timeout=3000),
+        "rule": "rapid over 18 op kinds and 4 API events with arbitrary identifiers, index params, partition lists with members recorded as dropped, replica numbers, resource groups, user/role/privilege tuples, "
+                "valid/invalid password encodings, schemas with 1..5 user fields (+dynamic field), shard number, consistency level, properties; plus malformed packs. Oracle: exactly one downstream request of the "
+                "corresponding kind, deep comparison with the source (names excluded: C09), replication stamp = pack end-position time / event time, dropped partitions removed in order, malformed pack -> error and zero calls. "
+                "non-trivial = operation with list-valued or nested fields; distinct = distinct contents",
+        "assumptions": ["fields the property does not list (database properties on create-database, resource groups / load fields of load-partitions) are not compared"],
+    },
 }
